@@ -1664,9 +1664,16 @@ class CodeGenerator(NodeVisitor):
     def visit_Const(self, node: nodes.Const, frame: Frame) -> None:
         val = node.as_const(frame.eval_ctx)
         if isinstance(val, float):
-            self.write(str(val))
+            rv = str(val)
         else:
-            self.write(repr(val))
+            rv = repr(val)
+
+        if rv.startswith("-") and isinstance(val, (int, float, complex)):
+            # A negative number folded from a unary minus must stay a
+            # single operand, "-2 ** y" would bind as "-(2 ** y)".
+            rv = f"({rv})"
+
+        self.write(rv)
 
     def visit_TemplateData(self, node: nodes.TemplateData, frame: Frame) -> None:
         try:
